@@ -317,7 +317,8 @@ pub fn gen(seed: u64, count: usize, tier: &str, params: &Params) -> Vec<Value> {
         match *rng.pick(&kinds) {
             "hist" | "hist_matrix" => {
                 let d = rng.range(1, 3) as usize;
-                let axes: Vec<Vec<i64>> = (0..d).map(|_| random_edges(&mut rng, 6)).collect();
+                let mut axes: Vec<Vec<i64>> = (0..d).map(|_| random_edges(&mut rng, 6)).collect();
+                if rng.chance(1, 8) { let k = rng.below(d as u64) as usize; let n = rng.range(10, 40); axes[k] = (0..n).map(|_| rng.range(-6, 12)).collect(); }
                 let np = rng.range(0, if tier == "thorough" { 200 } else { 40 });
                 let pts: Vec<Vec<i64>> = (0..np).map(|_| (0..d).map(|a| { let e = &axes[a];
                     if !e.is_empty() && rng.chance(1, 2) { *rng.pick(e) } else { rng.range(-8, 14) } }).collect()).collect();
@@ -328,6 +329,14 @@ pub fn gen(seed: u64, count: usize, tier: &str, params: &Params) -> Vec<Value> {
                     let lay = random_lay(&mut rng, &[pts.len(), d], fancy);
                     cases.push(json!({"ev": "hist_matrix", "ty": ty, "axes": axes, "pts": pts, "lay": lay.to_json()}));
                 }
+            }
+            "edges" if rng.chance(1, 6) => {
+                // long edge sequences (10..70 edges): where search schemes (bisection, galloping) change their step pattern
+                let n = rng.range(10, 70);
+                let input: Vec<i64> = (0..n).map(|_| rng.range(-8, 60)).collect();
+                let probes: Vec<i64> = (-9..=61).collect();
+                let src = *rng.pick(&["vec", "array"]);
+                cases.push(json!({"ev": "edges", "ty": ty, "input": input, "probes": probes, "src": src, "step": *rng.pick(&[1i64, 1, 2, -1, 3])}));
             }
             "edges" => {
                 let input = random_edges(&mut rng, 9);
